@@ -41,6 +41,7 @@ def parseFs : String → Option (Outcome × Bool)
   | "closed" => some (.closedConn, true)
   | "hdr" => some (.otherErr, false)       -- error at eth_getBlockByNumber
   | "connsend" => some (.otherErr, false)  -- connection dropped at eth_sendRawTransaction
+  | "lost" => some (.otherErr, true)       -- `acceptedReplyLost`: processed and accepted, connection cut before the reply
   | _ => none
 
 def mod256 (v : Nat) : Nat := v % 2 ^ 256
@@ -106,6 +107,9 @@ def seqStep (cfg : Config) : List Nat → List EndpointView → List String → 
       let views' := match acceptedBy r os with
         | some i => bumpNonce views i
         | none => views
+      -- … and so does one that accepted it although its reply was lost (`takenBy`)
+      let toks := outs.splitOn ","
+      let views' := (r.contacted.filter (fun i => toks[i]? == some "lost")).foldl bumpNonce views'
       let more ← seqStep cfg dead' views' rest
       pure (line :: more)
     | _ => none
